@@ -499,3 +499,22 @@ Proof.
   - intros id i Hin. destruct (ip_reg _ (inv_push_reachf _ _ Rf) _ _ Hin) as (cb0 & E & Ei & Sl & _ & Wt & _ & Cn).
     specialize (Cn Rn). rewrite Cn in Wt. exists cb0. auto.
 Qed.
+
+(* at a window boundary a waiting dispatcher has an empty queue, so the stop window keeps exactly the
+   valid notifications: nothing is consumed inside the window *)
+Lemma waiting_with_work_settles s : dp s = DWaitWork -> inq s <> [] -> settle1 s <> None.
+Proof.
+  intros D Q. unfold settle1. rewrite D.
+  assert (C : negb (running s) || negb (is_nil_list (inq s)) = true).
+  { destruct (inq s); [congruence|]. cbn. apply orb_true_r. }
+  rewrite C. destruct (rd s); try discriminate. destruct (ch_in s); discriminate.
+Qed.
+
+Theorem notifications_kept_exact c s l s' os : reach c s -> step s l = Some (s', os) ->
+  running s = true -> running s' = false -> inq s' = stop_queue (inq s).
+Proof.
+  intros R H Rn Rn'. destruct (notifications_kept _ _ _ _ _ R H Rn Rn') as (_ & [E|(D & b & m & q & E & _)]); auto.
+  exfalso. apply (waiting_with_work_settles s D).
+  - intros Z. rewrite Z in E. discriminate.
+  - apply (reach_settled c); auto. apply (no_crash c); auto.
+Qed.
